@@ -161,6 +161,12 @@ pub fn run(opts: &Opts) -> Report {
         if base.starts_with("P ") {
             rep.oracle_fail(&c.src, "P", "value or error", "compile/evaluate panicked");
         }
+        if base_prog.is_none() {
+            // not a program (the generator's noise can produce e.g. `4.map(..)`, where `4.` is a double): nothing to substitute in
+            rep.count(None);
+            rep.bump("skip:syntax-error");
+            continue;
+        }
         let key = format!("{}|{}", c.src, c.binds_variant);
         rep.count(if vars.is_empty() { None } else { Some(&key) });
         rep.bump(&format!("variables:{}", vars.len()));
